@@ -40,6 +40,7 @@ inductive SigPkt where
   | v4 (pkAlgo : Nat) (hashName : Bytes) (issuer : Option Nat)   -- hashName = crypto.Hash.String()
   | v3 (pkAlgo : Nat) (hashName : Bytes) (issuer : Nat)
   | malformed
+  | other                                                         -- a well-formed packet that is not a signature
   deriving DecidableEq, Repr
 
 /-- `gpgAlgorithmName` (OpenPGP public-key algorithm ids: 1 RSA, 3 RSA-sign-only, 17 DSA, 19 ECDSA, 22 EdDSA) -/
@@ -62,6 +63,7 @@ def sigAttrs : SigPkt → List Attr
   | .v4 pk h none => [⟨sb "Algorithm", algorithmName pk h⟩]
   | .v3 pk h k => [⟨sb "Algorithm", algorithmName pk h⟩, ⟨sb "Key id", keyIdText k⟩]
   | .malformed => [⟨sb "Type", sb "unknown or malformed"⟩]
+  | .other => []
 
 structure Pkg where
   sig : List Entry            -- Headers[0].Indexes
